@@ -153,6 +153,18 @@ def frame_with_trailer(payload_prefix: bytes, trailer: bytes) -> bytes:
     return f
 
 
+def payload_hitting_register(prefix: bytes, tail: bytes, target: int, b: int) -> bytes:
+    """payload prefix + 3 computed bytes + b + tail such that, framed, the CRC register right after `b` has been XOR-ed
+    in (before its eight shift rounds) equals `target`"""
+    n = len(prefix) + 4 + len(tail)
+    assert n <= MAXPAY
+    head = bytes([0xD3, n >> 8, n & 0xFF]) + prefix
+    reg = target ^ (b << 16)
+    x = crc_table(head) ^ preimage_crc3(reg)
+    assert crc_table(head + x.to_bytes(3, "big")) == reg
+    return prefix + x.to_bytes(3, "big") + bytes([b]) + tail
+
+
 def selfcheck():
     chk = b"123456789"
     assert crc_div(chk) == 0xCDE703, hex(crc_div(chk))
